@@ -582,47 +582,75 @@ func ruleBlockBound(p *Prog, r *RuleResult) {
 	prefixOnly := map[string]string{"GetMagicType": "reads a fixed-size prefix of the block to set an advisory data-type hint; blocks shorter than the prefix are stored raw"}
 	n := 0
 	var k keyer
-	eachInstr(f, func(i ssa.Instruction) {
-		c, ok := i.(*ssa.Call)
-		if !ok {
-			return
-		}
-		if _, isB := c.Call.Value.(*ssa.Builtin); isB {
-			return
-		}
-		if instrReaches(fwd, c) || c == fwd {
-			return
-		}
-		for _, a := range c.Call.Args {
-			if !whole[a] {
-				continue
+	// the whole slot may be handed to helpers of the same package (they slice it themselves); what matters is whether
+	// it leaves the package unsliced. Helper parameters that receive the whole slot are followed (bounded depth).
+	var scan func(fn *ssa.Function, whole map[ssa.Value]bool, top bool, depth int)
+	scan = func(fn *ssa.Function, whole map[ssa.Value]bool, top bool, depth int) {
+		eachInstr(fn, func(i ssa.Instruction) {
+			c, ok := i.(*ssa.Call)
+			if !ok {
+				return
 			}
-			n++
-			name := describeCall(p, c)
-			key := k.key(fname, "whole-buffer-arg")
-			callee := c.Call.StaticCallee()
-			if callee != nil {
-				if why, ok := prefixOnly[callee.Name()]; ok {
-					r.exempt(key+" "+name, p.IPos(c), why)
+			if _, isB := c.Call.Value.(*ssa.Builtin); isB {
+				return
+			}
+			if top && (instrReaches(fwd, c) || c == fwd) {
+				return
+			}
+			for ai, a := range c.Call.Args {
+				if !whole[a] {
 					continue
 				}
+				callee := c.Call.StaticCallee()
+				if callee != nil && callee.Blocks != nil && FnPkg(callee) == FnPkg(f) && depth < 3 && ai < len(callee.Params) {
+					sub := map[ssa.Value]bool{}
+					var g func(v ssa.Value, d int)
+					g = func(v ssa.Value, d int) {
+						if sub[v] || d > 8 {
+							return
+						}
+						sub[v] = true
+						if refs := v.Referrers(); refs != nil {
+							for _, ref := range *refs {
+								if ph, ok := ref.(*ssa.Phi); ok {
+									g(ph, d+1)
+								}
+							}
+						}
+					}
+					g(callee.Params[ai], 0)
+					scan(callee, sub, false, depth+1)
+					continue
+				}
+				n++
+				name := describeCall(p, c)
+				key := k.key(fname, "whole-buffer-arg")
+				if callee != nil {
+					if why, ok := prefixOnly[callee.Name()]; ok {
+						r.exempt(key+" "+name, p.IPos(c), why)
+						continue
+					}
+				}
+				r.fail(key, p.IPos(c), fmt.Sprintf("%s receives the whole reused input buffer instead of the current block (data[0:blockLength]): bytes left over from the block previously handled by this task slot are read, so the encoder's decisions (and the bits produced) depend on which slot - hence which job count - processed the block", name))
 			}
-			r.fail(key, p.IPos(c), fmt.Sprintf("%s receives the whole reused input buffer instead of the current block (data[0:blockLength]): bytes left over from the block previously handled by this task slot are read, so the encoder's decisions (and the bits produced) depend on which slot - hence which job count - processed the block", name))
-		}
-	})
+		})
+	}
+	scan(f, whole, true, 0)
 	// positive part: the hash and the transform see exactly the block
 	bounded := 0
-	eachInstr(f, func(i ssa.Instruction) {
-		c, ok := i.(*ssa.Call)
-		if !ok {
-			return
-		}
-		for _, a := range c.Call.Args {
-			if sl, ok := a.(*ssa.Slice); ok && whole[sl.X] && sl.High != nil && fieldVarOfLoad(stripConvert(sl.High)) == lenF {
-				bounded++
+	for _, bf := range append([]*ssa.Function{f}, p.helperClosure(f)...) {
+		eachInstr(bf, func(i ssa.Instruction) {
+			c, ok := i.(*ssa.Call)
+			if !ok {
+				return
 			}
-		}
-	})
+			for _, a := range c.Call.Args {
+				if sl, ok := a.(*ssa.Slice); ok && sl.High != nil && fieldVarOfLoad(stripConvert(sl.High)) == lenF {
+					bounded++
+				}
+			}
+		})
+	}
 	if len(r.Findings) == 0 {
 		r.ok(fmt.Sprintf("%s: %d call(s) take the block as data[0:blockLength]; no call before Forward receives the whole slot (besides %d frozen prefix probe(s))", fname, bounded, n), p.Pos(f.Pos()))
 	}
